@@ -93,6 +93,11 @@ MUTANTS = [
     M("n3-raw-export-name", ["C06", "C05"], ["N3"], (AK + "sample.py", "            _export_name=self.export_name\n", "            _export_name=self.name\n")),
     M("n4-allow-slash", ["C06"], ["N4"], (ST, r'_INVALID_FILE_NAME = re.compile(r"[^\w\-\.# ]+")', r'_INVALID_FILE_NAME = re.compile(r"[^\w\-\.#/ ]+")')),
     M("n4-no-strip", ["C06"], ["N4"], (ST, 'export_name = self._INVALID_FILE_NAME.sub(" ", name).strip()', 'export_name = self._INVALID_FILE_NAME.sub(" ", name)')),
+    M("n5-path-leaf-first", ["C06", "C01"], ["N5"], ("smpl_extract/base.py", "new_path = [current_node.export_name] + new_path", "new_path = new_path + [current_node.export_name]")),
+    M("n5-path-step-before-take", ["C06"], ["N5"], ("smpl_extract/base.py", "            new_path = [current_node.export_name] + new_path\n            current_node = current_node.parent\n",
+                                                     "            current_node = current_node.parent\n            new_path = [current_node.export_name] + new_path\n")),
+    M("n9-path-stops-one-early", ["C06", "C01", "C02"], ["N9"], ("smpl_extract/base.py", "while current_node is not None and len(current_node.path) > 0:", "while current_node is not None and len(current_node.path) > 1:")),
+    M("n9-path-keeps-root", ["C06", "C02"], ["N9"], ("smpl_extract/base.py", "while current_node is not None and len(current_node.path) > 0:", "while current_node is not None:")),
     M("n5-path-from-safe-name", ["C06"], ["N5"], ("smpl_extract/base.py", "new_path = [current_node.export_name] + new_path", "new_path = [current_node.safe_name] + new_path")),
     M("n6-lookup-raw-name", ["C10"], ["N6"], (ST, "if self._sanitize_string(x.safe_name) == token_sanitized", "if self._sanitize_string(x.name) == token_sanitized")),
     M("n7-skip-first", ["C06", "C10", "C05"], ["N7"], (ST, "                else:\n                    next_name = name\n                f_set(element, next_name)", "                else:\n                    continue\n                f_set(element, next_name)")),
